@@ -268,11 +268,7 @@ class AndersonCD(BaseSolver):
                     w = w_init.copy()
                     supp_size = penalty.generalized_support(w[:n_features]).sum()
                     p0 = max(supp_size, p0)
-                    if supp_size:
-                        Xw = X @ w[:n_features] + self.fit_intercept * w[-1]
-                    # TODO explain/clean this hack
-                    else:
-                        Xw = np.zeros_like(y)
+                    Xw = X @ w[:n_features] + self.fit_intercept * w[-1]
                 else:
                     w = np.zeros(n_features + self.fit_intercept, dtype=X.dtype)
                     Xw = np.zeros(X.shape[0], dtype=X.dtype)
